@@ -45,6 +45,7 @@ def parseOp : List String → Option Op
   | ["cmd"] => some .sendCommand
   | ["prompt"] => some .childPrompt
   | ["exit", r] => do pure (.childExit (← optN r))
+  | ["exitx", r] => do pure (.childExit (← optN r))     -- a plugin's on_end_run raises: same observable protocol
   | _ => none
 
 def handle (s : St) (ws : List String) : St × String :=
